@@ -342,6 +342,7 @@ func (ex *Exec) applyContract(fc *FuncContract, key string, names []string, typs
 	env.old = pre
 	ptxt := ex.posString(pos)
 	// the callee's ghost variables are existential at the call site
+	ex.lastCalleeGhosts = map[string]TV{}
 	for _, g := range fc.Ghosts {
 		srt := specSort(g.Type, ex)
 		t := tInt
@@ -349,6 +350,7 @@ func (ex *Exec) applyContract(fc *FuncContract, key string, names []string, typs
 			t = tBool
 		}
 		env.vars[g.Name] = TV{Sc{ex.vc.Fresh("cg."+g.Name, srt)}, t}
+		ex.lastCalleeGhosts[g.Name] = env.vars[g.Name]
 	}
 	for i, r := range fc.Requires {
 		g := ex.evalBool(r.E, ex.st, env)
@@ -424,6 +426,7 @@ type modItem struct {
 	lo, hi    Term // level 2: index range [lo,hi) ; empty S = all indices
 	single    bool // level 2: exactly index lo
 	idxSort   Sort
+	anyType   bool // level 0 with a type name: every object of that type
 }
 
 func (ex *Exec) evalModifies(cs []Clause, st *State, env *Env) []modItem {
@@ -490,6 +493,17 @@ func (ex *Exec) evalLoc(e Expr, st *State, env *Env) []modItem {
 			return []modItem{{keyPrefix: "", level: 0}}
 		}
 	case ECall:
+		if id, ok := x.Fun.(EIdent); ok && id.Name == "any" {
+			// any(Type): every object of that type (all fields)
+			n := ""
+			switch a := x.Args[0].(type) {
+			case EIdent:
+				n = a.Name
+			case ESel:
+				n = a.X.(EIdent).Name + "." + a.Name
+			}
+			return []modItem{{keyPrefix: n, level: 0, exact: false, anyType: true}}
+		}
 		if id, ok := x.Fun.(EIdent); ok && id.Name == "ghost" {
 			// ghost(name, ref): ghost per-object state
 			n := x.Args[0].(EIdent).Name
@@ -519,6 +533,9 @@ func pathKey(p []int) string { return fmt.Sprint(p) }
 func (it modItem) covers(key string) bool {
 	if it.level == 0 && it.keyPrefix == "" {
 		return true
+	}
+	if it.anyType {
+		return strings.HasPrefix(key, it.keyPrefix+".") || key == "cell<"+it.keyPrefix+">" || strings.HasPrefix(key, "cell<"+it.keyPrefix+">")
 	}
 	if it.exact {
 		return key == it.keyPrefix
